@@ -29,7 +29,8 @@ class Gen:
         r = self.rng
         x = r.random()
         can0 = allowed == 'all' or 0 in allowed
-        if x < .10: return ['a%d' % r.randrange(2)]
+        if x < .08: return ['a%d' % r.randrange(2)]
+        if x < .10: return [r.choice(['h%d' % r.randrange(4), 'h%d' % r.randrange(4), 'p0', 'p0', 'p1'])]
         if x < .14: return ['u%d' % r.randrange(4)]
         if x < .20: return ['c']
         if x < .30: return ['s%d,%d' % (r.randrange(NKEYS), r.randrange(100))]
@@ -109,7 +110,7 @@ class Gen:
         return toks
 
 
-def gen_case(rng, nworkers=None, size=None, heavy=False, safe=False, reuse=False):
+def gen_case(rng, nworkers=None, size=None, heavy=False, safe=False, reuse=False, clones=False):
     nworkers = nworkers or rng.choice([1, 2, 2, 3, 3, 4, 5, 7, 8, 12, 15, 16])
     nmutex = rng.choice([1, 1, 2, 3, 4])
     size = size or rng.choice([4, 8, 14, 22])
@@ -122,6 +123,19 @@ def gen_case(rng, nworkers=None, size=None, heavy=False, safe=False, reuse=False
     # (only leaves of the spawn tree: the harness and the stand-alone oracle count the calls of a Thread object statically)
     runs = {u: (rng.choice([2, 2, 3, 4]) if not kids[u] and rng.random() < (.5 if reuse else .12) else 1) for u in parent}
 
+    # copies of Thread objects (leaves, one run): a worker clones ITSELF inside a try block (copy(current(Thread)), the copy
+    # inherits a snapshot of its TLS and must get its own exception context); main copies a finished, joined child
+    clone = {}
+    for u in parent:
+        if kids[u] or runs[u] > 1 or rng.random() >= (.6 if clones else .1):
+            continue
+        if parent[u] != 0:
+            clone[u] = parent[u]
+        else:
+            sibs = [w for w in kids[0] if w < u and w not in clone]
+            if sibs:
+                clone[u] = rng.choice(sibs)
+
     def again(u):
         out = []
         for _ in range(runs[u] - 1):
@@ -132,10 +146,11 @@ def gen_case(rng, nworkers=None, size=None, heavy=False, safe=False, reuse=False
     # main: spawn its children (own work in between), then join in some order, peek after join
     main = []
     for u in kids[0]:
+        if u in clone: continue
         main.append('S%d' % u)
         if rng.random() < .3: main += g.block(1, set(), 0, [])
     main += g.block(rng.randrange(0, max(2, size // 2)), set(), 0, [])
-    order = list(kids[0]); rng.shuffle(order)
+    order = [u for u in kids[0] if u not in clone]; rng.shuffle(order)
     pending = []
     for u in order:
         main.append('J%d' % u)
@@ -144,6 +159,9 @@ def gen_case(rng, nworkers=None, size=None, heavy=False, safe=False, reuse=False
         main += again(u)
         if rng.random() < .2: main += g.block(1, set(), 0, [])
     for u in pending: main.append('P%d' % u)
+    for u in kids[0]:
+        if u in clone:      # the source has been joined above
+            main += ['K%d,%d' % (u, clone[u])] + (g.block(1, set(), 0, []) if rng.random() < .4 else []) + ['J%d' % u, 'P%d' % u]
     progs.append(main)
     shape = rng.choice(['mixed', 'mixed', 'same', 'contend'])
     same = g.block(size, set(), 0, []) if shape == 'same' else None
@@ -166,13 +184,14 @@ def gen_case(rng, nworkers=None, size=None, heavy=False, safe=False, reuse=False
             ins = {}
             for k in kids[u]:
                 a = rng.choice(free); b = rng.choice([x for x in free if x >= a])
-                ins.setdefault(a, []).append('S%d' % k)
+                ins.setdefault(a, []).append(('S*[ K%d,%d %s ] }' % (k, u, rng.choice(['y', 'o', 's%d,%d' % (rng.randrange(NKEYS), rng.randrange(100))])))
+                                             if k in clone else 'S%d' % k)
                 ins.setdefault(b, []).append('~J%d' % k + (' P%d' % k if rng.random() < .8 or runs[k] > 1 else '')
                                              + ''.join(' ' + x for x in again(k)))
             out = []
             for n in range(len(stmts) + 1):
                 todo = ins.get(n, [])
-                out += [x for x in todo if x[0] == 'S'] + [x[1:] for x in todo if x[0] == '~']
+                out += [(x[2:] if x.startswith('S*') else x) for x in todo if x[0] == 'S'] + [x[1:] for x in todo if x[0] == '~']
                 if n < len(stmts): out.append(stmts[n])
             p = ' '.join(out).split()
         if runs[u] > 1:
@@ -261,9 +280,16 @@ def spawned(case):
         if t >= len(progs):
             continue
         for tok in progs[t].split():
-            if tok[0] == 'S' and tok[1:].isdigit() and int(tok[1:]) not in live:
-                live.add(int(tok[1:])); todo.append(int(tok[1:]))
+            u = tok[1:] if tok[0] == 'S' else (tok[1:].split(',')[0] if tok[0] == 'K' else '')
+            if u.isdigit() and int(u) not in live:
+                live.add(int(u)); todo.append(int(u))
     return live
+
+
+def copies(case):
+    """threads whose Thread object is a copy (K<v>,<u>): they start with the source's TLS snapshot, so they have no
+    stand-alone run in the harness; their traces are judged against the specification's stand-alone run"""
+    return {int(t[1:].split(',')[0]) for p in case.split('|')[2:] for t in p.split() if t[0] == 'K' and t[1:].split(',')[0].isdigit()}
 
 
 def joined_peeks(case):
@@ -274,8 +300,8 @@ def joined_peeks(case):
     for t, prog in enumerate(case.split('|')[2:]):
         out, calls, joins = [], {}, {}
         for tok in prog.split():
-            u = tok[1:]
-            if tok[0] == 'S' and u.isdigit(): calls[u] = calls.get(u, 0) + 1
+            u = tok[1:].split(',')[0] if tok[0] == 'K' else tok[1:]
+            if tok[0] in 'SK' and u.isdigit(): calls[u] = calls.get(u, 0) + 1
             elif tok[0] == 'J' and u.isdigit() and calls.get(u, 0) > joins.get(u, 0): joins[u] = calls[u]
             elif tok[0] == 'P' and u.isdigit():
                 out.append(calls.get(u, 0) if calls.get(u, 0) and joins.get(u, 0) == calls.get(u, 0) else 0)
@@ -318,9 +344,22 @@ def oracle(case, impl, spec):
                 return 'thread %d finalised an object of another thread: %s' % (t, e)
     if int(p['x'].get('cross', 0)):
         return 'a probe object was finalised by a thread that did not allocate it (cross=%s)' % p['x']['cross']
+    for k, what in (('startctx', 'a thread did not start with its own fresh exception context (depth 0, inactive)'),
+                    ('ctxshared', 'two running threads share one Exception object / one collector'),
+                    ('pubdead', 'a result the thread published with new_root / new_raw was finalised or unreadable when the joiner read it after join')):
+        if int(p['x'].get(k, 0)):
+            return '%s (%s=%s)' % (what, k, p['x'][k])
+    cl = copies(case)
+    sp = parse_sections(spec) if spec else None
+    for t in sorted(cl & live):
+        # a copy of a Thread: snapshot of the source's TLS at the copy, private afterwards, everything else its own
+        if sp and t in sp[0] and t in p['conc']:
+            a, c = canon(sp[0][t], digests=False), canon(p['conc'][t], digests=False)
+            if a != c:
+                return 'thread %d (a copy of a Thread object) computes a different trace than on its own with the copied TLS snapshot: %s' % (t, first_diff(c, a))
     for t, tr in sorted(p['alone'].items()):
         a, c = canon(tr), canon(p['conc'].get(t, []))
-        if t == 0 or t not in live:
+        if t == 0 or t not in live or t in cl:
             continue
         if a != c:
             return 'thread %d computes a different trace with the others than alone: %s' % (t, first_diff(c, a))
@@ -363,7 +402,7 @@ def corr(case, impl, model):
     for t in sorted(mtr):
         want = canon(mtr[t], digests=False)
         for name, got in (('together', p['conc'].get(t)), ('alone', p['alone'].get(t))):
-            if name == 'alone' and (t not in live or not p['alone']):
+            if name == 'alone' and (t not in live or not p['alone'] or t in copies(case)):
                 continue      # never started / case flag n: no stand-alone phase
             if got is None:
                 if name == 'alone' and t == 0:
@@ -540,6 +579,9 @@ def tsan_pass(ctx, cases, run_model, run_spec):
 
 
 CORPUS = [
+    # a worker inside a try block copies itself (copy(current(Thread))) and calls the copy; main copies a finished thread;
+    # results published with new_root / new_raw; a managed object held only by the TLS under a "__" key
+    '1|0,1,2|S1 J1 P1 K3,1 J3 P3|s1,5 [ o K2,1 s2,6 o p0 p1 h0 c ] } J2 P2 e1|o m2 [ g1 ]0 } [ t1 ]1 o } e2|o m1 m2 e3',
     # Thread-object reuse: call / join / read, three rounds; the run sleeps before its last result
     '1|0,1|S1 J1 P1 S1 e5 J1 P1 S1 J1 P1|s1,4 o a0 c W0( i0 ) z5 e9',
     '2g|0,1,2|S1 S2 J2 P2 J1 P1 S1 S2 J1 P1 J2 P2 S2 J2 P2|[ t1 ]1 o } w0,10 z3 e1|w6,5 s2,7 z3 e2|e3',
@@ -573,7 +615,9 @@ def run(ctx):
         'thread\'s TLS table grow/rehash/shrink, rounds of forced collections), Thread objects either raw or owned by the '
         'main thread\'s collector (flag g, half of the cases), critical sections by lock/unlock, '
         'trylock loops, try-once sections (skipped when busy) and with-blocks (nested in lock order) with non-atomic counter increments, join + read of the '
-        'joined thread\'s trace; long-hold exclusion scenarios (one thread keeps a Mutex for 1.3 s and 2.5 s — thorough also 5 s and 11 s — '
+        'joined thread\'s trace; copies of Thread objects (a worker copies itself inside a try block, main copies a finished child) that start with '
+        'a TLS snapshot and must get their own exception context and collector (checked at every thread start); results published with '
+        'new_root / new_raw read by the joiner after join; managed objects held only by the TLS (keys with and without a __ prefix); long-hold exclusion scenarios (one thread keeps a Mutex for 1.3 s and 2.5 s — thorough also 5 s and 11 s — '
         'while three others wait by lock(), with-block, lock() after a failed trylock(); sections are logged with monotonic timestamps); sched_yield/nanosleep injected between instructions by the case seed.  Every worker '
         'program runs alone first, then all together; the schedule is whatever the kernel produces.  A case is '
         'non-trivial when the harness measured at least two threads inside their programs at the same time '
@@ -708,10 +752,10 @@ def run(ctx):
     d.feed(usable(CORPUS), 'corpus')
     known_finding_probe(ctx, lambda cs: ctx.run_lines(h, cs, env=env, timeout=600)[1])
     if quick:
-        plan = [(None, None, False)] * 1000 + [(16, 8, False)] * 60 + [(4, 14, True)] * 40 + [(2, 22, True)] * 40 + [('reuse', 8, False)] * 150
+        plan = [(None, None, False)] * 1000 + [(16, 8, False)] * 60 + [(4, 14, True)] * 40 + [(2, 22, True)] * 40 + [('reuse', 8, False)] * 150 + [('clone', 8, False)] * 100
     else:
-        plan = [(n, None, False) for n in range(1, 17) for _ in range(500)] + [(n, 14, True) for n in range(1, 17) for _ in range(20)] + [('reuse', 8, False)] * 800
-    cases = usable([gen_case(ctx.rng, None if n == 'reuse' else n, s, hv, safe, n == 'reuse') for (n, s, hv) in plan])
+        plan = [(n, None, False) for n in range(1, 17) for _ in range(500)] + [(n, 14, True) for n in range(1, 17) for _ in range(20)] + [('reuse', 8, False)] * 800 + [('clone', 8, False)] * 600
+    cases = usable([gen_case(ctx.rng, None if n in ('reuse', 'clone') else n, s, hv, safe, n == 'reuse', n == 'clone') for (n, s, hv) in plan])
     for i in range(0, len(cases), 320):      # run_lines runs shards of 80 cases side by side
         d.feed(cases[i:i + 320])
     ctx.cov['thread_counts'] = sorted(set(c.count('|') - 1 for c in cases))
